@@ -521,6 +521,120 @@ def run_weights(case, seed, R):
 
 
 # ---------------------------------------------------------------------------------------------
+# argument forms of the band edges (Python / numpy scalars of integer and floating type, 0-d arrays)
+
+FORMS = ('float', 'int', 'np.float64', 'np.float32', 'np.int64', 'array0d', 'array0d-int')
+EDGE_VALUES = (2, 4, 5, 20)      # integer-valued edges; as periods at dx = 1.1, as frequencies (x 1/40) at the matching dx
+
+
+def in_form(v, form):
+    """v in the given argument form, or None when the form cannot hold it exactly enough (integers only for int forms)."""
+    if v is None:
+        return None
+    integral = float(v) == int(v)
+    if form == 'float':
+        return float(v)
+    if form == 'np.float64':
+        return np.float64(v)
+    if form == 'np.float32':
+        return np.float32(v)
+    if form == 'array0d':
+        return np.array(float(v))
+    if not integral:
+        return 'n/a'
+    if form == 'int':
+        return int(v)
+    if form == 'np.int64':
+        return np.int64(v)
+    return np.array(int(v))       # array0d-int
+
+
+def form_geometry(n0, n1, kind):
+    """dx and the four integer-valued edges (ascending in frequency) for the period / frequency configuration."""
+    if kind == 'period':
+        dx = 1.1
+        freqs = sorted(1.0 / v for v in EDGE_VALUES)
+    else:
+        dx = 1.1 / 40.0          # the same geometry, frequencies scaled by 40: 0.05, 0.2, 0.25, 0.5 -> 2, 8, 10, 20
+        freqs = [2.0, 8.0, 10.0, 20.0]
+    return dx, freqs
+
+
+def run_forms(case, seed, R):
+    n0, n1, kind, form, target = case['n0'], case['n1'], case['kind'], case['form'], case['target']
+    try:
+        dx, freqs = form_geometry(n0, n1, kind)
+        r, cls, mids = radial_classes(n0, n1, dx)
+        df = min(1.0 / (n0 * dx), 1.0 / (n1 * dx))
+        for f in freqs:      # harness precondition, checked on the reference grid: no sample on an edge
+            assert np.abs(r - f).min() > 1e-3 * df and f < r.max(), (n0, n1, dx, f)
+        h = dense((n0, n1), seed, salt=47, complex_=False)
+        P = ref_psd(h, dx) / (n0 * n1)
+        cell = P / (n0 * n1 * dx * dx)
+        ring = ring_mask(n0, n1)
+        MS = float(cell.sum())
+        tol = K * EPS * MS
+        itf = Interferogram(h.copy(), dx) if target == 'method' else None
+        edges = [None] + freqs + [None]       # index 0: open below, index 5: open above
+        for i in range(5):
+            for j in range(i + 1, 6):
+                lo, hi = edges[i], edges[j]
+                if lo is None and hi is None:
+                    continue
+                if kind == 'period':
+                    base = {'wllow': None if hi is None else 1.0 / hi, 'wlhigh': None if lo is None else 1.0 / lo}
+                    base = {k_: (None if v is None else float(round(v))) for k_, v in base.items()}     # the integers 2, 4, 5, 20
+                else:
+                    base = {'flow': lo, 'fhigh': hi}
+                variants = [('both', {k_: in_form(v, form) for k_, v in base.items()})]
+                if all(v is not None for v in base.values()):
+                    a_, b_ = list(base)
+                    variants.append((a_, {a_: in_form(base[a_], form), b_: base[b_]}))
+                    variants.append((b_, {a_: base[a_], b_: in_form(base[b_], form)}))
+
+                def call(kw):
+                    if target == 'method':
+                        return R.call(itf.bandlimited_rms, **kw)
+                    return R.call(ig.bandlimited_rms, r, P, **kw)
+                name = 'Interferogram.bandlimited_rms' if target == 'method' else 'bandlimited_rms'
+                ref_v = as_ms(R, call(dict(base)), f'{name}:output', f'{name}({n0}x{n1}, dx={dx}, {base})')
+                if ref_v is None:
+                    continue
+                if target == 'function':
+                    inb = np.ones((n0, n1), bool)
+                    if lo is not None:
+                        inb &= r > lo
+                    if hi is not None:
+                        inb &= r < hi
+                    U, E = float(cell[inb].sum()), float((cell * ring)[inb].sum())
+                    R.expect(abs(ref_v - U) <= E + tol, f'bandlimited_rms:band-integral:{sq(n0, n1)}',
+                             f'{n0}x{n1} dx={dx} {base}: rms^2={ref_v!r}, integral over the band {U!r}, ring weight {E!r}')
+                for which, kw in variants:
+                    if any(isinstance(v, str) for v in kw.values()):
+                        continue
+                    v = as_ms(R, call(kw), f'{name}:output', f'{name}({n0}x{n1}, dx={dx}, {kw!r})')
+                    if v is not None:
+                        R.expect(abs(v - ref_v) <= 8 * EPS * max(v, ref_v), f'{name}:edge-form:{kind}:{form}',
+                                 f'{n0}x{n1} dx={dx}: edges {kw!r} ({form} form of {which}) give rms^2={v!r}, the same edges as Python floats {base} give {ref_v!r}')
+                        R.nontrivial(ref_v > tol)
+        if target == 'method' and kind == 'period':
+            # total integrated scatter: wavelength and angle in every form (1/lambda above every sampled frequency)
+            for lam, ang in ((50, 0), (50, 30), (20, 30)):
+                t0 = R.call(itf.total_integrated_scatter, float(lam), float(ang))
+                for which, args in (('both', (in_form(lam, form), in_form(ang, form))), ('wavelength', (in_form(lam, form), float(ang))),
+                                    ('angle', (float(lam), in_form(ang, form)))):
+                    t = R.call(itf.total_integrated_scatter, *args)
+                    if t is FAILED or t0 is FAILED:
+                        continue
+                    e = float(np.finfo(np.float32).eps) if form == 'np.float32' else EPS
+                    R.expect_close(np.asarray(t, dtype=float), np.asarray(t0, dtype=float), 64 * e * max(abs(float(t0)), 1e-300) if np.ndim(t0) == 0 else 0,
+                                   f'total_integrated_scatter:arg-form:{form}', f'{n0}x{n1}: total_integrated_scatter{args!r} ({form} form of {which}) vs Python floats')
+        R.outcome(f'form:{form}')
+    finally:
+        prune(R)
+
+
+# ---------------------------------------------------------------------------------------------
 # Interferogram methods
 
 def run_methods(case, seed, R):
@@ -921,6 +1035,9 @@ def plan(tier, seed):
                   for (a, b) in shapes for dx in dxs for w in ('user-ones', 'hann', 'welch') for mp in ('const', 'sin', 'dense')]
     band_cases += [{'n0': a, 'n1': b, 'dx': dx, 'window': w, 'map': mp}
                    for (a, b) in shapes for dx in xdx for w in ('user-ones', 'welch') for mp in ('const', 'dense')]
+    form_shapes = [(9, 9), (8, 9), (12, 10)] + ([] if quick else [(11, 8), (16, 16), (15, 13)])
+    form_cases = [{'n0': a, 'n1': b, 'kind': kind, 'form': form, 'target': tg}
+                  for (a, b) in form_shapes for kind in ('period', 'frequency') for tg in ('function', 'method') for form in FORMS]
     wd_shapes = [(3, 4), (5, 5), (8, 7), (16, 16), (17, 18)] + ([] if quick else [(33, 31), (64, 64)])
     wd_cases = [{'n0': a, 'n1': b, 'dx': dx, 'dtype': dt, 'kind': kind}
                 for (a, b) in wd_shapes for dx in (1.0, 0.25) for dt in WDTYPES
@@ -955,6 +1072,11 @@ def plan(tier, seed):
                   'distinct sample radii, and the open upper end; EVERY pair of edges as frequencies (flow/fhigh, incl. one-sided) and as periods (wllow/wlhigh, incl. '
                   'one-sided); every ordered triple for additivity; neighbours for monotonicity; every band against the reference integral within the ring weight; '
                   'period form == frequency form', reset=rs, chunk=8),
+        ScopeUnit('edge_forms', form_cases, run_forms,
+                  f'shapes {form_shapes} x {{periods 2,4,5,20 at dx=1.1; frequencies 2,8,10,20 at dx=1.1/40 (same geometry)}} x {{bandlimited_rms, Interferogram.bandlimited_rms}} x '
+                  f'argument form {list(FORMS)}: every two-sided and one-sided band over the four integer-valued edges (all strictly between sample radii), the form applied to '
+                  'both edges and to each edge alone; every form must give the result of the same edges as Python floats (which is itself judged against the reference integral); '
+                  'total_integrated_scatter with wavelength / angle in every form', reset=rs),
         ScopeUnit('methods', meth_cases, run_methods,
                   f'every shape in [3..{B}]^2 x dx x map: Interferogram.psd (axes, r, Parseval, == psd()), Interferogram.bandlimited_rms on 4 quantile edges in both '
                   'forms (== function on the method\'s own PSD), total_integrated_scatter at 0 and 30 degrees', reset=rs),
